@@ -24,7 +24,7 @@ var eT0 = engine.Epoch.Add(2 * time.Hour)
 var providerCfg = vcfg{issuer: I, maxAge: time.Hour, offset: time.Second}
 
 type artifactsT struct {
-	code, access, accessID, refresh string
+	code, access, accessID, refresh, deviceCode string
 }
 
 type baseT struct {
@@ -92,6 +92,17 @@ func buildBase(t *testing.T) {
 					fail("base: no second code for %s: %d %s", id, resp.Status, resp.Body)
 					return
 				}
+				da := r.Do(0, rig.Req("POST", "/device_authorization", url.Values{"scope": {"openid"},
+					"client_assertion": {validAssertion(id, engine.Epoch)}, "client_assertion_type": {atypeJWT}}, nil))
+				a.deviceCode = da.Str("device_code")
+				if da.Status != 200 || a.deviceCode == "" {
+					fail("base: device authorization for %s: %d %s", id, da.Status, da.Body)
+					return
+				}
+				if err := r.Core.ApproveDevice(da.Str("user_code"), "u1"); err != nil {
+					fail("base: approve device for %s: %v", id, err)
+					return
+				}
 				base.art[id] = a
 			}
 			base.st = r.Core.St.Clone()
@@ -107,7 +118,7 @@ func buildBase(t *testing.T) {
 }
 
 var endpointSpace = engine.Space{
-	engine.D("op", "code", "refresh", "introspect", "revoke", "device", "bearer"),
+	engine.D("op", "code", "refresh", "introspect", "revoke", "device", "bearer", "devtoken"),
 	engine.D("router", "provider", "legacy"),
 	engine.D("iss", A, B, SVC, ghost, "absent"),
 	engine.D("kid", "jk2", "jk1", "bk1", "sk1", "zz", "absent"),
@@ -174,6 +185,8 @@ func endpointCase(t *testing.T, r *rig.Rig, opName, router string, a assertionT,
 		form = url.Values{"grant_type": {"authorization_code"}, "code": {art.code}, "redirect_uri": {redirectOf(owner)}}
 	case "refresh":
 		form = url.Values{"grant_type": {"refresh_token"}, "refresh_token": {art.refresh}}
+	case "devtoken":
+		form = url.Values{"grant_type": {"urn:ietf:params:oauth:grant-type:device_code"}, "device_code": {art.deviceCode}}
 	case "introspect":
 		path, form = "/oauth/introspect", url.Values{"token": {art.access}}
 	case "revoke":
@@ -225,7 +238,7 @@ func endpointCase(t *testing.T, r *rig.Rig, opName, router string, a assertionT,
 	acted, served := false, false
 	var actedFor []string
 	switch opName {
-	case "code", "refresh":
+	case "code", "refresh", "devtoken":
 		acted = len(newTok) > 0 || body["access_token"] != nil || body["id_token"] != nil || body["refresh_token"] != nil
 		for _, tk := range newTok {
 			actedFor = append(actedFor, tk.ClientID)
